@@ -51,11 +51,14 @@ impl SuspenseScope {
     /// Implementation for [`Self::is_loading`]. This is used to recursively check whether we are
     /// loading or not.
     fn _is_loading(self) -> bool {
+        // An enclosing scope may already be (half) disposed when a nested scope is evaluated once
+        // more during the teardown, e.g. because something it was waiting for is dropped.
+        if !self.tasks_remaining.is_alive() {
+            return false;
+        }
         self.tasks_remaining.get() > 0
-            || self
-                .parent
-                .as_ref()
-                .is_some_and(|parent| parent.get()._is_loading())
+            || (self.parent.as_ref())
+                .is_some_and(|parent| parent.is_alive() && parent.get()._is_loading())
     }
 
     /// Returns a signal representing whether we are currently loading this suspense or not.
